@@ -12,8 +12,11 @@ namespace Nstd.Sync.Scen
 inductive SOp
   | lock | try_ (skip : Nat) | unlock | signal | wait | twait (ms : Nat) | trywait | set | reset
   | start (j : Nat) | join (j : Nat) | dtor (j : Nat)
-  /-- `Thread::start(obj, &X::f)` on Thread object j with the body of program k; the model only has an answer when the
-      object is attached (the call fails and changes nothing) -/
+  /-- `Thread::start(obj, &X::f)` (member-function overload) on Thread object j with the body of program j -/
+  | mstart (j : Nat)
+  /-- the same overload on Thread object j with the body of program k: `Thr.Op.mstart j k`.  The interpreter can only
+      follow it when the object is attached (the call fails and changes nothing): thread j running program k ≠ j has no
+      representation in `World` -/
   | xstart (j k : Nat)
   /-- delete the primitive (only generated where no correct implementation touches it afterwards) -/
   | destroy
@@ -72,7 +75,7 @@ def primCall (p : PrimSt) (t : Tid) (op : SOp) : Option PrimSt :=
 /-- is the op part of the primitive's API (checked when the scenario is parsed) -/
 def opValid (prim : String) (op : SOp) : Bool :=
   match op with
-  | .start _ | .join _ | .dtor _ | .xstart _ _ => true
+  | .start _ | .mstart _ | .join _ | .dtor _ | .xstart _ _ => true
   | .destroy => prim == "sig" || prim == "mon"
   | .lock | .try_ _ | .unlock => prim == "mtx" || prim == "mon"
   | .signal | .trywait => prim == "sem"
@@ -128,17 +131,20 @@ def primWantsTick (p : PrimSt) (t : Tid) : Bool :=
 
 def World.n (w : World) : Nat := w.progs.size
 
+/-- the value returned by thread body k = the `T:<ret>:` of program k -/
+def World.val (w : World) (k : Nat) : Nat := (w.progs[k]?.map (·.1)).getD 0
+
 def World.live (w : World) (t : Tid) : Bool :=
-  match w.thr.status t with | .created | .running => true | _ => false
+  match w.thr.status t with | .created _ | .running _ => true | _ => false
 
 /-- enabled alternatives of thread t -/
 def World.alts (w : World) (t : Tid) : List (Nat × Kind) :=
   match w.thr.status t with
-  | .created => [(0, .normal)]
-  | .running =>
+  | .created _ => [(0, .normal)]
+  | .running _ =>
     if w.thr.pc t != .idle then
       -- alternative 1 of a pending pthread_create = the call fails (budgeted; never taken by the default policy)
-      [(0, Kind.normal), (1, Kind.eintr)].filter fun (a, _) => (Thr.step w.thr t (.api (.run a))).isSome
+      [(0, Kind.normal), (1, Kind.eintr)].filter fun (a, _) => (Thr.step w.val w.thr t (.api (.run a))).isSome
     else
       (List.range (primMaxAlt w.prim)).filterMap fun a =>
         if (primRun w.prim t a).isSome then some (a, primKind w.prim t a) else none
@@ -146,7 +152,7 @@ def World.alts (w : World) (t : Tid) : List (Nat × Kind) :=
 
 def World.cands (w : World) : List (Nat × Nat × Kind) :=
   let th := (List.range w.n).flatMap fun t => (w.alts t).map fun (a, k) => (t, a, k)
-  let tick := (List.range w.n).any fun t => w.thr.status t == .running && w.thr.pc t == .idle && primWantsTick w.prim t
+  let tick := (List.range w.n).any fun t => (w.thr.status t).isRunning && w.thr.pc t == .idle && primWantsTick w.prim t
   if tick then th ++ [(99, 0, .tick)] else th
 
 /-- thread t has just returned from a call or begun to run: begin its next call(s) up to the next POSIX
@@ -157,13 +163,21 @@ def advance (fuel : Nat) (w : World) (t : Tid) (evs : List String) : Option (Wor
   | fuel + 1 =>
     match w.progs[t]? with
     | none => none
-    | some (ret, ops) =>
+    | some (_, ops) =>
       let k := w.pos[t]?.getD 0
       match ops[k]? with
-      | none =>        -- the thread function returns
-        (Thr.step w.thr t (.exit ret)).map fun th => ({ w with thr := th }, evs)
+      | none =>        -- the thread function returns (the value of its body: `World.val`)
+        (Thr.step w.val w.thr t .exit).map fun th => ({ w with thr := th }, evs)
       | some (.start j) =>
-        match Thr.step w.thr t (.api (.call (.start j))) with
+        match Thr.step w.val w.thr t (.api (.call (.start j j))) with
+        | none => none
+        | some th =>
+          if th.pc t == .idle then
+            advance fuel { w with thr := th, pos := w.pos.set! t (k + 1) } t
+              (evs ++ [s!"{k}={valStr ((th.ret t).getD .unit)}"])
+          else some ({ w with thr := th }, evs)
+      | some (.mstart j) =>
+        match Thr.step w.val w.thr t (.api (.call (.mstart j j))) with
         | none => none
         | some th =>
           if th.pc t == .idle then
@@ -171,22 +185,27 @@ def advance (fuel : Nat) (w : World) (t : Tid) (evs : List String) : Option (Wor
               (evs ++ [s!"{k}={valStr ((th.ret t).getD .unit)}"])
           else some ({ w with thr := th }, evs)
       | some (.join j) =>
-        match Thr.step w.thr t (.api (.call (.join j))) with
+        match Thr.step w.val w.thr t (.api (.call (.join j))) with
         | none => none
         | some th =>
           if th.pc t == .idle then
             advance fuel { w with thr := th, pos := w.pos.set! t (k + 1) } t
               (evs ++ [s!"{k}={valStr ((th.ret t).getD .unit)}"])
           else some ({ w with thr := th }, evs)
-      | some (.xstart j _) =>
-        -- only meaningful on an attached object: `start` returns false at once; otherwise the scenario is ill-formed
+      | some (.xstart j b) =>
+        -- only followed on an attached object (`start` returns false at once and the model says what that leaves
+        -- unchanged: the stored functor); otherwise the scenario is ill-formed for this interpreter
         if w.thr.handle j then
-          match Thr.step w.thr t (.api (.call (.start j))) with
+          match Thr.step w.val w.thr t (.api (.call (.mstart j b))) with
           | none => none
-          | some th => advance fuel { w with thr := th, pos := w.pos.set! t (k + 1) } t (evs ++ [s!"{k}=0"])
+          | some th =>
+            if th.pc t == .idle then
+              advance fuel { w with thr := th, pos := w.pos.set! t (k + 1) } t
+                (evs ++ [s!"{k}={valStr ((th.ret t).getD .unit)}"])
+            else none
         else none
       | some (.dtor j) =>
-        match Thr.step w.thr t (.api (.call (.dtor j))) with
+        match Thr.step w.val w.thr t (.api (.call (.dtor j))) with
         | none => none
         | some th =>
           if th.pc t == .idle then
@@ -212,11 +231,11 @@ def applyChoice (w : World) (t a : Nat) : Option (World × List String) :=
   if t = 99 then some ({ w with prim := primTick w.prim w.quantum }, [])
   else
     match w.thr.status t with
-    | .created =>
-      (Thr.step w.thr t .begin_).bind fun th => advance ((w.progs[t]?.map (·.2.size)).getD 0 + 2) { w with thr := th } t []
-    | .running =>
+    | .created _ =>
+      (Thr.step w.val w.thr t .begin_).bind fun th => advance ((w.progs[t]?.map (·.2.size)).getD 0 + 2) { w with thr := th } t []
+    | .running _ =>
       if w.thr.pc t != .idle then
-        (Thr.step w.thr t (.api (.run a))).bind fun th =>
+        (Thr.step w.val w.thr t (.api (.run a))).bind fun th =>
           match th.ret t with
           | some v => returned { w with thr := th } t v
           | none => none
